@@ -37,5 +37,13 @@ CHECKS["C01"] = dict(
     parts=[dict(bin="vh", part="c01", shards=16, budget=dict(quick=100, thorough=1500)),
            dict(bin="vsched-race", part="c01s", shards=16, budget=dict(quick=100, thorough=1500))])
 
+CHECKS["C02"] = dict(
+    level="model_checking", engine="xstate+sched", design_ref="DESIGN.md §5 C02",
+    technique="explicit-state BFS over add/update/remove/request histories on the real RoundRobin and Rebalancer vs an ordered-map reference + DFS over interleavings of administration racing with requests under the race detector",
+    text="All histories up to the depth bound over a URL alphabet with identity collisions (scheme/host/path/userinfo/query variants), weights {default,0,2}, passive and URL-rewriting handlers, with/without sticky cookies, through RoundRobin and through Rebalancer; in every state Servers()/ServerWeight() equal the reference incl. stored URL strings and a full rotation hits exactly the positive-weight members; empty/all-zero pools refuse repeatedly. Concurrent part: interval oracle for Remove/Upsert racing with requests.",
+    note="pool size <= 3, depth-bounded histories (A4); sequential consistency between scheduling points, races reported by the detector (A3)",
+    parts=[dict(bin="vh", part="c02", shards=16, budget=dict(quick=100, thorough=1500)),
+           dict(bin="vsched-race", part="c02s", shards=16, budget=dict(quick=100, thorough=1500))])
+
 NOT_APPLICABLE = [dict(property_id=p, reason="check not built yet in this revision (work in progress; see DESIGN.md for the plan)")
                   for p in ALL if p not in CHECKS]
